@@ -136,6 +136,47 @@ theorem block_completes_with_registered_invariants (e : Env) (henv : EnvOk e) (h
   have := anyNegative_of_en _ (hinv'.books.states s hs).1
   simp [this]
 
+/-- the evaluable environment check printed by the model driver on every block (`hyp=`) is sound
+    for the three environment hypotheses of the theorems above -/
+theorem envOkB_sound (e : Env) (h : envOkB e = true) : EnvOk e ∧ e.modAddr? "" = none ∧ BurnerOk e := by
+  unfold envOkB at h
+  simp only [Bool.and_eq_true] at h
+  obtain ⟨⟨hall, hnone⟩, hb⟩ := h
+  refine ⟨?_, by simpa using hnone, hb⟩
+  intro n hn
+  unfold Env.modAddr? at hn
+  cases hf : e.modules.find? (fun m => m.name = n) with
+  | none => rw [hf] at hn; cases hn
+  | some m =>
+    rw [hf] at hn
+    simp only [Option.map_some, Option.some.injEq] at hn
+    have hmem := List.mem_of_find?_eq_some hf
+    have hname : m.name = n := by simpa using List.find?_some hf
+    have := List.all_eq_true.mp hall m hmem
+    simp only [Bool.or_eq_true, decide_eq_true_eq] at this
+    rcases this with h1 | h1
+    · simp only [ne_eq, decide_not, Bool.not_eq_true', decide_eq_false_iff_not] at h1
+      exact absurd hn h1
+    · rw [← hname]; exact h1
+
+theorem bech32FactsB_sound (subs : List SubD) (h : bech32FactsB subs = true) : Bech32Facts subs := by
+  intro s hs
+  have := List.all_eq_true.mp h s hs
+  simp only [Bool.and_eq_true] at this
+  refine ⟨?_, ?_⟩
+  · intro sh hsh hok
+    have h1 := List.all_eq_true.mp this.1 sh hsh
+    simp only [Bool.or_eq_true, Bool.not_eq_true', decide_eq_true_eq] at h1
+    rcases h1 with h2 | h2
+    · rw [hok] at h2; cases h2
+    · exact h2
+  · intro hok
+    have h1 := this.2
+    simp only [Bool.or_eq_true, Bool.not_eq_true', decide_eq_true_eq] at h1
+    rcases h1 with h2 | h2
+    · rw [hok] at h2; cases h2
+    · exact h2
+
 /-- what may happen between two blocks (C03's `Inflow`) with a bank that stays well-formed -/
 def InflowT (e : Env) (w w' : Distr.World) : Prop := Inflow e w w' ∧ BankOk e w'.bank
 
